@@ -104,11 +104,19 @@ fn main() {
                 for skew in [0u32, 0xFFFFF] {
                     for bits in 0..8u8 {
                         for n in [1usize, 8, 64] {
-                            let v = match n {
+                            let mut v = match n {
                                 1 => vlab::c06::run_registration::<1>(tk, pre, skew, bits),
                                 8 => vlab::c06::run_registration::<8>(tk, pre, skew, bits),
                                 _ => vlab::c06::run_registration::<64>(tk, pre, skew, bits),
                             };
+                            // The second queue of the device, also created a second time after
+                            // the device was re-initialised (reset) in between.
+                            if n == 8 && skew == 0 {
+                                for twice in [false, true] {
+                                    v.extend(vlab::c06::run_registration_of::<8>(tk, pre, skew, bits, 1, twice));
+                                    ev += 1;
+                                }
+                            }
                             ev += 1;
                             classes.insert((tk.name(), n, v.is_empty()));
                             for (k, d) in v {
@@ -121,7 +129,7 @@ fn main() {
                 }
             }
         }
-        c.add_sweep("registration: VirtQueue::new (N = 1, 8, 64; 8 flag combinations) on the model, MMIO legacy, MMIO modern and PCI transports with the queue's regions starting in each of 7 different 4 GiB windows and two platform address skews; the addresses the register-level device received are held against the layout oracle", ev, classes.len() as u64, true, J::obj());
+        c.add_sweep("registration: VirtQueue::new (N = 1, 8, 64; 8 flag combinations) on the model, MMIO legacy, MMIO modern and PCI transports with the queue's regions starting in each of 7 different 4 GiB windows and two platform address skews; the addresses the register-level device received are held against the layout oracle; queue 1 of a two-queue device also created a second time after a re-initialisation", ev, classes.len() as u64, true, J::obj());
     }
     c.add_sample(J::obj().set("case", J::s("N=256 legacy=true indirect=false event_idx=true ap=false in_use=false max=256 -> created; queue_set(desc=P, driver=P+4096, device=P+8192), 3 pages freed once")));
     c.finish();
